@@ -252,7 +252,7 @@ def trace_validation(ctx, exe, corrupt=None, sweep=True):
     from vlib import x_c03
     rnd = random.Random(ctx.seed)
     nk, nv = BIG
-    nexec, nops = (6, 500) if ctx.tier == "quick" else (24, 900)
+    nexec, nops = (6, 500) if ctx.tier == "quick" else (18, 900)
     hist = [gen_history(rnd, nops, nk, nv) for k in range(nexec)]
     scfg, snk = SWEEP_CFG[ctx.tier]
     sweep_hist = [gen_sweep(SWEEP_SIZES[ctx.tier], snk, nv)]
@@ -292,7 +292,7 @@ def run(ctx):
     for cls in CLASSES:
         # text family 0 (digits) and 1 (first bytes 0x40 / 0x80 / 0xbf ... : ASCII and high-bit keys mixed)
         objcheck.replay_cover(ctx, g, [tok(INIT)], exe, cls, [cls, str(nk), str(nv), "0", "full"], keyfn, walks=walks, jobs=4,
-                              pairs=(40000 if ctx.tier == "quick" else 400000))
+                              pairs=(40000 if ctx.tier == "quick" else 200000))
         objcheck.replay_cover(ctx, g, [tok(INIT)], exe, cls + "/highbit-keys", [cls, str(nk), str(nv), "1", "full"], keyfn,
                               walks=walks, jobs=4)
     trace_validation(ctx, exe)
